@@ -91,9 +91,9 @@ def pay (w : World) (src dst : Bytes) (egld : Nat) : List (Bytes × Nat × Nat) 
   | [] => match subEgld w src egld with
     | some w' => some (addEgld w' dst egld)
     | none => none
-  | (tok, _nonce, amt) :: rest =>
-    match subEsdt w src tok amt with
-    | some w' => pay (addEsdt w' dst tok amt) src dst egld rest
+  | (tok, nonce, amt) :: rest =>
+    match subEsdt w src (esdtKey tok nonce) amt with
+    | some w' => pay (addEsdt w' dst (esdtKey tok nonce) amt) src dst egld rest
     | none => none
 
 def stamp (addr : Bytes) (evs : List Ev) : List Event :=
